@@ -694,6 +694,13 @@ inline void run_checked(long idx, F&& f)
     res.rounds_done = keep;
 }
 
+// library spin-yields performed so far by vthread `vtid` of the running round
+inline uint64_t yields_of(int vtid)
+{
+    ThreadCtx* c = pool.ctxs[vtid].load();
+    return c ? c->yield_count.load(std::memory_order_relaxed) : 0;
+}
+
 inline bool want_round(long r) { return cfg.only_round < 0 || cfg.only_round == r; }
 
 // ------------------------------------------------------------------ payload with access-window monitor
